@@ -285,6 +285,8 @@ def run(chk, prog):
     chk.check(rng, "R5", A.loc(fa, {"line": dout.line}), "all bunches, columns and rows are produced (%s)" % [(lv[v].lo, lv[v].hi) for v in "nxy"], "FP::apply:ranges")
     chk.check(jl[0].lo == 0 and jl[0].hi == sp.Symbol("_ip", real=True), "R5", A.loc(fa, {"line": h.line}),
               "all _ip stencil cells of a row are applied", "FP::apply:cells-range")
+    # ---- R6: the source-map table is rebuilt whenever the displacement field changes (a stale table moves the grid by old offsets) ----
+    K.offset_table_sync(chk, prog, "R6")
     chk.notes.append("C01: column sums of every transport operator (kick maps via weights+index maps, Fokker-Planck stencils incl. "
                      "stencil-switch rows, identity) decided as polynomial identities / index equalities for all offsets, sizes, "
                      "orders, FPTypes. Not decided: float rounding, the grid border, OpenCL kernels.")
